@@ -204,7 +204,37 @@ def search(item, seed):
             why = f"evaluation raised {type(ex).__name__}: {ex}"
         if why:
             return dict(function="pooled", input=case, observed=why)
-    return None
+    # listed finding (known_findings.json, C04-pair-with-two-target-labels-skipped): reported again while it is observed, a violation if anything else happens
+    why, known = check_mixed_pair()
+    if why:
+        return dict(function="mixed-pair", input={}, observed=why)
+    return dict(known_only=known) if known else None
+
+
+MIXED = "pair-with-two-target-labels-neither-tp-nor-fp"
+
+
+def check_mixed_pair():
+    """label policy ALLOW_ANY, target labels car / bicycle / pedestrian: a bicycle estimate 0.2 m from a car ground truth (threshold 1.0 m). The pair is
+    label-compatible under the policy and beats the threshold (pass/fail reports a TP), so the statement counts it as a TP of the ranking it is pooled in"""
+    import frames
+    fr, eo, go, res = frames.frame_result([dict(label="bicycle", x=2.0, y=0.0, score=0.9, uuid="e0")], [dict(label="car", x=2.2, y=0.0, uuid="g0")], ego=None,
+                                          targets=["car", "bicycle", "pedestrian"], crit=dict(max_x_position_list=[20.0] * 3, max_y_position_list=[20.0] * 3),
+                                          pass_thr=[1.0] * 3, policy="ALLOW_ANY")
+    if len(fr.object_results) != 1 or fr.object_results[0].ground_truth_object is None or len(fr.pass_fail_result.tp_object_results) != 1:
+        return None, set()          # the pair is not formed / not a TP of the frame: nothing to compare (other clauses cover the pairing)
+    for m in fr.metrics_score.maps:
+        if str(m.matching_mode) != "Center Distance":
+            continue
+        tp = sum(a.tp_list[-1] for a in m.aps if a.objects_results_num > 0)      # (a ranking without results carries placeholder lists)
+        fp = sum(a.fp_list[-1] for a in m.aps if a.objects_results_num > 0)
+        ranked = sum(a.objects_results_num for a in m.aps)
+        if ranked == 1 and tp == 1 and fp == 0:
+            return None, set()      # counted as the statement says
+        if ranked == 1 and tp == 0 and fp == 0:
+            return None, {MIXED}    # the listed finding: ranked under 'bicycle', judged at the threshold of 'car' (not a label of that ranking), so neither TP nor FP
+        return f"ALLOW_ANY, bicycle estimate on a car ground truth 0.2 m away: the AP rankings hold {ranked} results with {tp} TP and {fp} FP", set()
+    return None, set()
 
 
 def replay(payload):
@@ -220,6 +250,8 @@ def replay(payload):
         why = heading.check(i)
     elif payload["function"] == "pooled":
         why = check_pooled(i)
+    elif payload["function"] == "mixed-pair":
+        why = check_mixed_pair()[0]
     else:
         why = check_core(i["weights"], i["G"]) if payload["function"] == "Ap(core)" else check_scene(i)
     return (why is None, why or "ok")
